@@ -10,5 +10,7 @@ with open(p + ".lock", "w") as lk:
     fcntl.flock(lk, fcntl.LOCK_EX)
     d = json.load(open(p))
     d["findings"] = [x for x in d["findings"] if x.get("id") != e.get("id")] + [e]
-    open(p, "w").write(json.dumps(d, indent=1, ensure_ascii=True) + "\n")
+    tmp = p + ".tmp%d" % os.getpid()
+    open(tmp, "w").write(json.dumps(d, indent=1, ensure_ascii=True) + "\n")
+    os.replace(tmp, p)
 print("ok")
